@@ -299,6 +299,7 @@ func (n *Net) RoundTrip(req *http.Request) (*http.Response, error) {
 			// (foreign) header naming some other method must change nothing
 			names := []string{"get", "delete", "update", "partial_update", "get_all", "create", "batch_get", "action", "finder"}
 			req.Header.Set("X-RestLi-Method", names[kern.Choose(len(names), "lie-method-name")])
+			call.liedHeader = true
 			n.c.Probe("simple-resource-contradicting-header")
 		} else {
 			req.Header.Del("X-RestLi-Method")
